@@ -432,6 +432,15 @@ def d6_archive_copy(ctx):
             ctx.assume('R-FLOW', 'D6', f, e.node, 'exclusive-create-unless-overwrite', inst, detail=why)
         else:
             ctx.decide(ok, 'R-FLOW', 'D6', f, e.node, 'exclusive-create-unless-overwrite', inst, detail=why)
+    # every normal completion of archive() has written the archive in this very call: no return is reachable without
+    # passing tarfile.open (an early "still up to date" return, judged by time stamps or sizes, hands back an archive
+    # whose extraction differs from the directory — in-place rewrites do not touch the directory's mtime)
+    rets = [n for n in own_nodes(f.node) if isinstance(n, ast.Return)]
+    early = [r for r in rets if not must_precede(f, r, [e.node for e in tars])]
+    ctx.decide(bool(rets) and not early, 'R-POST', 'D6', f, early[0] if early else None, 'archive-always-written',
+               'archive: every return is preceded by tarfile.open on all paths (the archive handed back was written by this call)',
+               detail=f'a return at line {early[0].lineno if early else 0} is reachable without creating the archive: an '
+                      f'existing file is handed back as the archive of the current content')
     adds = [n for n in own_nodes(f.node) if isinstance(n, ast.Call) and
             isinstance(n.func, ast.Attribute) and n.func.attr == 'add']
     ok = False
